@@ -90,7 +90,14 @@ impl StreamChunker {
             let mut slice = buf.slice();
             let concat = (&mut slice).chain(&mut reader);
 
-            let buf = arena.read_n(concat, io_block_size, NonZeroUsize::MAX)?;
+            // Ask for a full block *in addition to* the carried-over bytes:
+            // the read must request at least one new byte from `reader`,
+            // otherwise "no progress" does not mean EOF.
+            let buf = arena.read_n(
+                concat,
+                io_block_size.saturating_add(initial_length),
+                NonZeroUsize::MAX,
+            )?;
             if buf.slice().len() == initial_length {
                 // No progress, must be Eof.
                 if buf.slice().is_empty() {
